@@ -247,9 +247,8 @@ func VerifC15Referrers() {
 	}
 	repo := &Repository{Reference: registry.Reference{Registry: "r.io", Repository: "a/b"}, Client: peer}
 	repo.ReferrerListPageSize = verifrt.Choice(N + 1)
-	switch verifrt.Choice(3) {
-	case 1:
-		repo.SetReferrersCapability(true)
+	if verifrt.Bool() {
+		repo.SetReferrersCapability(true) // capability already known; otherwise it is detected by this call
 	}
 	filter := ""
 	if verifrt.Bool() {
